@@ -59,6 +59,11 @@ func (k Keeper) SendNftTransfer(
 		if err != nil {
 			return err
 		}
+	} else if strings.HasPrefix(class, CLASSPATHPREFIX) && strings.Contains(class, DELIMITER) {
+		// a native class whose id reads like a voucher path ("nft/<chain>/<chain>/<class>")
+		// would be treated as a voucher coming home: it would be burned here and the
+		// destination would release an NFT of <class> from its escrow
+		return errorsmod.Wrapf(types.ErrInvalidDenom, "native class %s must not have the form of a voucher class path", class)
 	}
 
 	labels := []metrics.Label{
